@@ -524,12 +524,20 @@ void premature_stream_end(DFS::byte opcode)
 	    << ") instruction\n";
 }
 
+// The state of copy_hfe which has to survive from one block of a
+// track to the next block for the same side.
+struct HfeCopyState
+{
+  byte this_op = 0;	  // HFEv3 opcode whose operand we have not seen yet
+};
+
 void copy_hfe(bool hfe3, const byte* begin, const byte* end,
-	      std::back_insert_iterator<std::vector<byte>> dest)
+	      std::back_insert_iterator<std::vector<byte>> dest,
+	      HfeCopyState* state)
 {
   int got_bits = 0;
   byte out = 0;
-  byte this_op = 0;
+  byte& this_op = state->this_op;
   while (begin != end)
     {
       int skipbits = 0;
@@ -687,10 +695,6 @@ void copy_hfe(bool hfe3, const byte* begin, const byte* end,
 	  got_bits = 0;
 	}
     }
-  if (this_op)
-    {
-      premature_stream_end(this_op);
-    }
 }
 
 // Sort the sectors by address.
@@ -757,6 +761,7 @@ HfeFile::read_all_sectors(const std::vector<PicTrack>& lut,
       std::vector<byte> track_stream;
       track_stream.reserve(track_len_in_bytes / 2);
       auto begin_offset = side_block_size * side;
+      HfeCopyState copy_state;
       while (begin_offset < track_bytes_read)
 	{
 	  const auto end_offset = std::min(begin_offset + side_block_size,
@@ -781,7 +786,8 @@ HfeFile::read_all_sectors(const std::vector<PicTrack>& lut,
 	  copy_hfe(3 == hfe_version_,
 		   raw_data.data() + begin_offset,
 		   raw_data.data() + end_offset,
-		   std::back_inserter(track_stream));
+		   std::back_inserter(track_stream),
+		   &copy_state);
 	  if (DFS::verbose)
 	    {
 #if ULTRA_VERBOSE
@@ -792,6 +798,10 @@ HfeFile::read_all_sectors(const std::vector<PicTrack>& lut,
 #endif
 	    }
 	  begin_offset += raw_data_block_size;
+	}
+      if (copy_state.this_op)
+	{
+	  premature_stream_end(copy_state.this_op);
 	}
 #if ULTRA_VERBOSE
       if (DFS::verbose)
